@@ -214,8 +214,12 @@ func mergeRootObjects(aTypes, bTypes map[string]*ast.Definition, a, b *ast.Defin
 
 		if isNodeField(f) {
 			// every service may expose node, keep a single copy
-			if fields.ForName(f.Name) == nil {
+			rf := fields.ForName(f.Name)
+			if rf == nil {
 				fields = append(fields, f)
+			} else if !isNodeField(rf) {
+				// the other side uses the name for a root field of its own
+				return nil, fmt.Errorf("overlapping root types fields %s : %s", a.Name, f.Name)
 			}
 			continue
 		}
